@@ -1,6 +1,41 @@
 package main
 
-import "fmt"
+import (
+	"fmt"
+	"time"
 
-// startStrace starts the local daemon under strace with a syscall-level kill injector (thorough tier).
-func (t *c04Trial) startStrace() error { return fmt.Errorf("strace injector not built yet") }
+	"verif/harness/internal/ctl"
+)
+
+// startStrace starts the local daemon under `strace -f` with a syscall-level injector: the N-th
+// invocation (per thread) of the chosen file-system syscall in the daemon or in any runner process
+// delivers SIGKILL to that process on entry to the syscall, i.e. between the previous file-system
+// step and this one - also at places that carry no hook. A watchdog notices the daemon's death (its
+// control socket stops answering) and ends the wrapper, so that the trial continues with the restart.
+func (t *c04Trial) startStrace() error {
+	sc := t.sp.Strace
+	t.L.Wrap = []string{"strace", "-f", "-qq", "-o", "/dev/null", "-e", "trace=" + sc, "-e", fmt.Sprintf("inject=%s:signal=SIGKILL:when=%d", sc, t.sp.StraceN)}
+	err := t.L.Start("VERIF_POINT_LOG=" + t.ptLog)
+	if err != nil {
+		return err
+	}
+	go func() {
+		fails := 0
+		for t.L.Alive() {
+			c, derr := ctl.DialUnix(t.L.Sock(), time.Second)
+			if derr == nil {
+				c.Close()
+				fails = 0
+			} else {
+				fails++
+			}
+			if fails >= 4 {
+				t.straceKilledDaemon.Store(true)
+				t.L.Kill()
+				return
+			}
+			time.Sleep(150 * time.Millisecond)
+		}
+	}()
+	return nil
+}
